@@ -1,11 +1,16 @@
 (* Lemmas_E2E.v — whole command lines, end to end: on the scripted always-ready environment of Script.v
    (event machine idle with an empty queue, no mutex) the per-phase results chain into the observable
-   behaviour of one complete line:  "AT<name>?" LF answered from variables, an unknown name, and a
-   WRITE line to variables.
+   behaviour of one complete line:  AT<name>? LF answered from variables, an unknown or ambiguous name,
+   and a WRITE line AT<name>=<args> LF to variables.
    Structure: (A) the relation [osteps m s q s' q' out] = m cat_service calls from state s / queue q to
-   s' / q' that call no handler and whose accepted output is out; (B) the flush engine as osteps (one
-   unit = newline text newline); (C) frames of the name lookup; (D) dispatch with ghost counters;
-   (E) the READ formatting loop as steps; (F) result code, reset; (G) the composed theorems. *)
+   s' / q' that call no handler and whose accepted output is out (Lemmas_C02e.steps is the case out = []);
+   (B) the flush engine as osteps (one unit = newline text newline, after Lemmas_C11);
+   (C) frames of the name lookup (ghost counters, k_cr, k_hold, buffer size);
+   (D) dispatch with the final state's registers explicit (after Lemmas_C02e);
+   (E) the READ formatting loop as steps (after Lemmas_C07e.rloop_ok), with the frame [post];
+   (F) emitting a unit, the result code, the reset;
+   (F') the WRITE path: argument collection (Lemmas_C06) and the variable parser (after Lemmas_C07e.wloop);
+   (G) the composed lines; the final statements; a concrete instance. *)
 From Coq Require Import List NArith ZArith Bool Arith Lia.
 From CatV Require Import Bytes Defs Codec Spec Fsm Script ResolveDefs SchedDefs GlueDefs TextDefs CollectDefs.
 From CatV Require Lemmas_C02 Lemmas_C02e Lemmas_C06 Lemmas_C07 Lemmas_C07e Lemmas_C11 Lemmas_C19.
@@ -1331,3 +1336,47 @@ Print Assumptions E2E_read_line_proof.
 Print Assumptions E2E_unknown_line_proof.
 Print Assumptions E2E_unknown_read_line_proof.
 Print Assumptions E2E_write_line_proof.
+
+(* ================= a concrete instance (used by the examples of Properties_E2E.v) ================= *)
+Module E2E_examples.
+Definition v1 := mkVar None VInt 2 RW false false 0.
+Definition v2 := mkVar None VBufStr 6 RW false false 1.
+Definition v3 := mkVar None VBufHex 2 RW false false 2.
+Definition v4 := mkVar None VUint 1 RW false false 3.
+(* "+X" : int16, string[6], hexbuf[2], uint8, no handlers;  "+XY" : a run handler only *)
+Definition c0 := mkCmd [43; 88]%N None false false false false [v1; v2; v3; v4] false false false.
+Definition c1 := mkCmd [43; 88; 89]%N None false false true false [] false false false.
+Definition D0 := mkDesc [[c0; c1]] [] 40 (Some 8) 85%N 2 false.
+(* -2 ; the string A , dquote NUL 7 7 ; 0A FF ; 200 ; a fifth slot that no variable uses *)
+Definition m0 : list (list N) := [[254; 255]; [65; 44; 34; 0; 7; 7]; [10; 255]; [200]; [9]]%N.
+Definition m1 : list (list N) := [[1; 1]; [1; 1; 1; 1; 1; 1]; [1; 1]; [1]; [5]]%N.
+Definition s0 := init_state D0 m0.
+Definition s1 := init_state D0 m1.
+(* the text  -2 , dquote A , backslash dquote dquote , 0AFF , 200 *)
+Definition args0 : list N :=
+  [45; 50; 44; 34; 65; 44; 92; 34; 34; 44; 48; 65; 70; 70; 44; 50; 48; 48]%N.
+
+Definition hyps_ok (D : desc) (s : state) : bool :=
+  negb (d_mutex D) && (0 <? ncmds D) && (ncmds D <=? 4 * length (cbuf s)) && (6 <=? length (cbuf s)) &&
+  negb (fault s) && cstate_beq (k_state (k s)) CS_IDLE && negb (k_cr (k s)) && negb (k_implicit (k s)) &&
+  negb (k_hold (k s)) && ustate_beq (u_state (u s)) US_IDLE && (u_count (u s) =? 0).
+
+Definition obs (w : sworld) :=
+  (k_state (k (wst w)), inq (wio w), whs w, calls_of (wtr w), output_of (wtr w), mem (wst w), fault (wst w),
+   (gL (wst w), gS (wst w), gR (wst w))).
+Definition go (s : state) (line : list N) (calls : nat) := obs (nsvc D0 calls (mkw s line [] [])).
+
+Lemma ex_rt : Lemmas_C07e.rt_cmd_ok m0 c0.
+Proof.
+  unfold Lemmas_C07e.rt_cmd_ok. split; [discriminate|]. split.
+  - repeat constructor; try discriminate;
+      eexists; (split; [reflexivity|]); (split; [reflexivity|]);
+      (split; [repeat constructor|]); repeat split; try discriminate; try reflexivity;
+      cbn; auto 10.
+  - split; [cbn; repeat constructor; cbn; intuition discriminate|].
+    repeat split; try reflexivity. cbn. intuition discriminate.
+Qed.
+
+Lemma ex_no_cr : ~ In ch_CR args0.
+Proof. unfold args0. cbn [In]. intros H. repeat (destruct H as [H|H]; [discriminate H|]). exact H. Qed.
+End E2E_examples.
